@@ -526,7 +526,15 @@ class BGP(protocol.Protocol):
             # anything shorter is not an OPEN message (Bad Message Length)
             self.msg_recv_stat['Opens'] += 1
         open_msg = Open()
-        parse_result = open_msg.parse(msg)
+        try:
+            parse_result = open_msg.parse(msg)
+        except (excep.OpenMessageError, excep.MessageHeaderError):
+            raise
+        except Exception as e:
+            # an optional parameter that is recognised but malformed (RFC 4271 section 6.2): OPEN Message
+            # Error, subcode unspecific - not a silently dropped OPEN
+            LOG.error(e)
+            raise excep.OpenMessageError(sub_error=0)
         if self.fsm.bgp_peering.peer_asn != open_msg.asn:
             raise excep.OpenMessageError(sub_error=bgp_cons.ERR_MSG_OPEN_BAD_PEER_AS)
 
